@@ -342,7 +342,7 @@ fn families(a: &Args) -> Vec<Family> {
     vec![
         fam_two_route("steiner-two-route9", false, if t { 3 } else { 2 }),
         fam_simple("cliques-colouring", false, SimpleFam::new(0..=5, false, false), "maximal_cliques + dsatur_coloring", run_undirected_simple),
-        fam_simple("cliques-colouring6", true, SimpleFam::new(6..=6, false, false), "maximal_cliques + dsatur_coloring", run_undirected_simple),
+        fam_simple("cliques-colouring6", false, SimpleFam::new(6..=6, false, false), "maximal_cliques + dsatur_coloring", run_undirected_simple),
         fam_list("fas-lists3", false, ListFam::new(3, 4, true), "greedy_feedback_arc_set", run_fas),
         fam_list("fas-lists4", false, ListFam::new(4, if t { 5 } else { 3 }, true), "greedy_feedback_arc_set", run_fas),
         fam_simple("fas-digraphs4", false, SimpleFam::new(0..=4, true, true), "greedy_feedback_arc_set", run_fas),
